@@ -142,6 +142,10 @@ class Prover:
         out = []
         i = self.atom_inst(a)
         A = Lin.atom(a)
+        if isinstance(a, tuple) and a[0] == "entry":
+            bits = a[1][2] * 8
+            if bits < 64: out.append(A - ((1 << bits) - 1))
+            return out
         if i is None: return out
         if i.op == "trunc":
             out.append(A - self.fi.lin(i.ops[0]))                       # trunc(v) <= v
@@ -188,6 +192,18 @@ class Prover:
                 alts.append((self.fi.lin(inc["v"]), list(le) + list(le2)))
             return alts
         return None
+    def infeasible(self, facts, ne=()):
+        """the single-atom facts (and atoms >= 0) admit no value for some atom: the program point is unreachable"""
+        lo = {}; hi = {}
+        for f in facts:
+            if len(f.t) != 1: continue
+            (a, k), = f.t.items()
+            # k*a + c <= 0
+            if k > 0: hi[a] = min(hi.get(a, float("inf")), (-f.c) // k)
+            else: lo[a] = max(lo.get(a, 0), (f.c + (-k) - 1) // (-k))      # ceil(c / -k)
+        for a in set(lo) | set(hi):
+            if lo.get(a, 0) > hi.get(a, float("inf")): return True
+        return False
     # proving ---------------------------------------------------------------
     def prove_le0(self, e, facts, depth=0, seen=None):
         """prove e <= 0 assuming every f in facts is <= 0 and all atoms >= 0"""
@@ -205,6 +221,7 @@ class Prover:
                 if alts is not None:
                     ok = True
                     for val, extra in alts:
+                        if self.infeasible(facts + extra): continue
                         if not self.prove_le0(e.subst(a, val), facts + extra, depth + 1, seen): ok = False; break
                     if ok: return True
                 cands = list(facts) + self.intrinsic_upper(a)
